@@ -106,6 +106,17 @@ impl<'a, D: DependencyProvider> Encoder<'a, D> {
             self.on_task_result(future_result?);
         }
 
+        #[cfg(feature = "verif-hooks")]
+        self.state
+            .decision_tracker
+            .verif_events
+            .push(crate::verif::VerifEvent::EncodeResult(
+                self.conflicting_clauses
+                    .iter()
+                    .map(|c| c.to_usize() as u32)
+                    .collect(),
+            ));
+
         Ok(self.conflicting_clauses)
     }
 
